@@ -9,7 +9,7 @@
    Status of each clause of the property:   full = proved as stated;  refuted = false of the faithful model, witness
    replayed on the C code (finding);  partial = proved for the stated sub-case, the missing part is spelled out. *)
 From Coq Require Import List NArith ZArith Bool Permutation.
-From PM Require Proofs.ReplyRanges.
+From PM Require Proofs.ReplyRanges Proofs.HLOracles Spec.Proto.
 From PM Require Import Base.Bytes Base.Outcome Gen.GenHL Model.HL Spec.HLSpec Proofs.HLArith Proofs.HLProofs
   Proofs.HLIndex Proofs.HLFind Proofs.HLCor Proofs.HLRound Proofs.HLSort Proofs.HLSortTerm Proofs.HLSortOrder Proofs.HLIter
   Proofs.HLClosure.
@@ -390,3 +390,70 @@ Example C14_reply_sets_nonvacuous :
   ReplyRanges.hl_ranged_sorted [bs "t3"%string; bs "t1"%string; bs "foo"%string; bs "t2"%string] = Ok (bs "foo,t[1-3]"%string).
 Proof. vm_compute. reflexivity. Qed.
 Print Assumptions C14_reply_sets.
+
+(* ================================================================ the services the client layer uses (C02 C03 C06 C11 C15) *)
+(* The client theorems quantify over four host-list ORACLES; Proofs/HLOracles.v defines them from this model:
+     hl_expand_str a      = create a, then iterate (None = NULL)          hl_ranged_plain l = ranged_string (fold push_host l)
+     hl_ranged_sorted l   = ranged_string (sort (fold push_host l))       hl_sorted l       = iterate (sort (fold push_host l))
+     hl_ranged_sorted_expr l = the same with hostlist_push(hl, name), the expression parser, as client.c spells it.
+   C14_services_defined: what a non-Ok outcome of the model is mapped to hides nothing - create and iterate are always Ok (the
+   MemErr / Hang sites are unreachable with the constants of the current source), sort is Ok for at most SORT_MAX_NAMES = 10240
+   pushed names (a pushed name carries a number <= MAX_HOST_SUFFIX < 2^31: C14_sort_returns applies); a non-Ok sort is mapped to
+   the empty text / the unsorted input.  [full; beyond 10240 names: C14's open item] *)
+Theorem C14_services_defined :
+  (forall a, (create a = Ok None /\ HLOracles.hl_expand_str a = None)
+             \/ (exists h l, create a = Ok (Some h) /\ iterate h = Ok l /\ HLOracles.hl_expand_str a = Some l))
+  /\ (forall a h, create a = Ok (Some h) -> wf h -> Forall iter_ok h -> HLOracles.hl_expand_str a = Some (expand h))
+  /\ (forall l, expand (fold_left push_host l []) = l /\ wf (fold_left push_host l [])
+                /\ HLOracles.hl_ranged_plain l = ranged_string (fold_left push_host l []))
+  /\ (forall l, N.of_nat (length l) <= SORT_MAX_NAMES ->
+        exists h, sort (fold_left push_host l []) = Ok h /\ Permutation (expand h) l /\ wf h
+                  /\ ReplyRanges.hl_ranged_sorted l = Ok (ranged_string h) /\ HLOracles.hl_ranged_sorted l = ranged_string h)
+  /\ (forall l, N.of_nat (length l) <= SORT_MAX_NAMES ->
+        exists h l', sort (fold_left push_host l []) = Ok h /\ Permutation (expand h) l /\ wf h /\ iterate h = Ok l'
+                     /\ HLOracles.hl_sorted l = l' /\ (Forall iter_ok h -> l' = expand h)).
+Proof. exact HLOracles.services_defined. Qed.
+Print Assumptions C14_services_defined.
+
+(* the library never invents a byte: every byte of an expanded name occurs in the argument text or is a decimal digit; every
+   byte of a ranged string occurs in one of the names or is a digit or one of [ ] , - ; every byte of a sorted name occurs in
+   one of the names or is a digit  [full, no hypothesis] *)
+Theorem C14_services_provenance :
+  (forall a l, HLOracles.hl_expand_str a = Some l -> Forall (Forall (fun b => In b a \/ HLOracles.is_dec b)) l)
+  /\ (forall l, Forall (fun b => In b (concat l) \/ HLOracles.is_dec b \/ HLOracles.is_punct b) (HLOracles.hl_ranged_sorted l))
+  /\ (forall l, Forall (fun b => In b (concat l) \/ HLOracles.is_dec b \/ HLOracles.is_punct b) (HLOracles.hl_ranged_plain l))
+  /\ (forall l, Forall (Forall (fun b => In b (concat l) \/ HLOracles.is_dec b)) (HLOracles.hl_sorted l)).
+Proof. exact HLOracles.services_provenance. Qed.
+Print Assumptions C14_services_provenance.
+
+(* hence the contract the client theorems assumed of the oracles (Proofs/ClientStream.oracle_ok, the hypothesis of C15_stream):
+   no service invents a CR or LF (Proto.eol_free t = true: no byte 13 or 10 in t)  [full, no hypothesis] *)
+Theorem C14_services_clean :
+  (forall a l, HLOracles.hl_expand_str a = Some l -> Proto.eol_free a = true -> Forall (fun n => Proto.eol_free n = true) l)
+  /\ (forall l, Forall (fun n => Proto.eol_free n = true) l -> Proto.eol_free (HLOracles.hl_ranged_sorted l) = true)
+  /\ (forall l, Forall (fun n => Proto.eol_free n = true) l -> Proto.eol_free (HLOracles.hl_ranged_sorted_expr l) = true)
+  /\ (forall l, Forall (fun n => Proto.eol_free n = true) l -> Proto.eol_free (HLOracles.hl_ranged_plain l) = true)
+  /\ (forall l, Forall (fun n => Proto.eol_free n = true) l -> Forall (fun n => Proto.eol_free n = true) (HLOracles.hl_sorted l)).
+Proof. exact HLOracles.services_clean. Qed.
+Example C14_services_nonvacuous :
+  HLOracles.hl_expand_str (bs "n[1-3],x"%string) = Some [bs "n1"%string; bs "n2"%string; bs "n3"%string; bs "x"%string]
+  /\ HLOracles.hl_ranged_sorted [bs "n3"%string; bs "n1"%string; bs "n2"%string; bs "x"%string] = bs "n[1-3],x"%string
+  /\ HLOracles.hl_ranged_plain [bs "n3"%string; bs "n1"%string; bs "n2"%string; bs "x"%string] = bs "n[3,1-2],x"%string
+  /\ HLOracles.hl_sorted [bs "n3"%string; bs "n1"%string; bs "n2"%string; bs "x"%string] = [bs "n1"%string; bs "n2"%string; bs "n3"%string; bs "x"%string]
+  /\ HLOracles.hl_expand_str (bs "n[1-"%string) = None.
+Proof. repeat split; vm_compute; reflexivity. Qed.
+Print Assumptions C14_services_clean.
+
+(* client.c pushes the names of a reply's node set with hostlist_push (the expression parser): for names free of list syntax
+   (HLRound.legal: no separator, no bracket, non-empty, shorter than the token buffer) that is hostlist_push_host  [full];
+   for a node name that carries list syntax it is not (observation, the C agrees: the node t1a[2], one name of t[1]a[2], is
+   printed as t1a2 in a 302 line; outside the property's quantifier "punctuation legal in node names") *)
+Theorem C14_reply_push_is_push_host : forall l, Forall (fun n => legal n = true) l ->
+  HLOracles.hl_ranged_sorted_expr l = HLOracles.hl_ranged_sorted l.
+Proof. exact HLOracles.hl_ranged_sorted_expr_legal. Qed.
+Example C14_reply_push_differs :
+  HLOracles.hl_expand_str (bs "t[1]a[2]"%string) = Some [bs "t1a[2]"%string]
+  /\ HLOracles.hl_ranged_sorted [bs "t1a[2]"%string] = bs "t1a[2]"%string
+  /\ HLOracles.hl_ranged_sorted_expr [bs "t1a[2]"%string] = bs "t1a2"%string.
+Proof. exact HLOracles.push_expr_differs. Qed.
+Print Assumptions C14_reply_push_is_push_host.
